@@ -510,3 +510,39 @@ def _cluster_replay(fn):
 for _fn in ('provision_batch_resources', 'release_batch_resources', '_set_machine_occupied', '_set_machine_available', '_add_idle_resource',
             '_reset_idle_resources', '_update_available_resources', 'allocate_task_to_cluster', 'clean_up_ingest'):
     BUILDERS['Cluster.' + _fn] = _cluster_replay(_fn)
+
+
+# ---------------------------------------------------------------------------------------------------- Scheduler._find_pred_allocations (C03)
+@builder('Scheduler._find_pred_allocations')
+def _fpa_replay(m, ob):
+    """bounded native fallback (the function is pure in (task, machine, allocations)): every assignment of up to 4 predecessors to
+    3 machines with distinct finish times; the result must list exactly the predecessors that ran on another machine"""
+    import itertools
+    from topsim.core.scheduler import Scheduler
+    from topsim.core.task import Task
+    from topsim.core.machine import Machine
+    machines = [Machine(f'm{i}', 1, 1, 1, 1) for i in range(3)]
+    bad = []
+    n = 0
+    for k in range(0, 5):
+        for assign in itertools.product(range(3), repeat=k):
+            for afts in ([tuple(range(1, k + 1)), tuple(range(k, 0, -1))] if k else [()]):
+                preds = []
+                allocations = {}
+                for i in range(k):
+                    p = Task(f'p{i}', 0, 0, None, [])
+                    p.aft = afts[i]
+                    preds.append(p)
+                    allocations[p.id] = (p, machines[assign[i]])
+                t = Task('t', 0, 0, None, [p.id for p in preds])
+                n += 1
+                try:
+                    got = Scheduler._find_pred_allocations(None, t, machines[0], allocations)
+                except Exception as e:
+                    bad.append(f"preds on machines {assign}: {type(e).__name__}: {e}")
+                    continue
+                want = sorted(p.id for i, p in enumerate(preds) if assign[i] != 0)
+                if sorted(getattr(x, 'id', x) for x in got) != want:
+                    bad.append(f"task on m0, predecessors on machines {assign} finishing at {afts}: listed {sorted(getattr(x, 'id', x) for x in got)}, "
+                               f"cross-machine predecessors are {want}")
+    return dict(violated=bool(bad), bounded=True, scope=f"{n} cases: up to 4 predecessors x 3 machines x 2 finish orders", failures=len(bad), observed=bad[:5])
